@@ -45,6 +45,7 @@ def raw_lemmas(ctx, eng, ce):
         0xFF44: ("LY", lambda s0, s1: fld(s0, "ppu.PPU", "ly")),
         0xFF01: ("SB", lambda s0, s1: z3.BitVecVal(0xFF, 8)), 0xFF02: ("SC", lambda s0, s1: z3.BitVecVal(0xFF, 8)),
     }
+    last_r, last_s = [None], [None]
     for addr, (nm, want) in table.items():
         st = st0.fork()
         pre = st.fork()
@@ -53,7 +54,12 @@ def raw_lemmas(ctx, eng, ce):
         for (s1, _) in mc.call(ctx, eng, st, mc.M + "Write", [m, a, v]):
             for (s2, r) in mc.call(ctx, eng, s1.fork(), mc.M + "Read", [m, a]):
                 viol.append(z3.And(s2.pcond(), r != want(pre, s1)))
-        lem.add("lemma:readback:%s" % nm, z3.Or(*viol) if viol else z3.BoolVal(True))
+                last_r[0], last_s[0] = r, s2
+        from engine.replay2 import script_info
+        ob = lem.add("lemma:readback:%s" % nm, z3.Or(*viol) if viol else z3.BoolVal(True))
+        if viol:
+            ob.info = script_info(w, pre, "github.com/scottyw/tetromino/gameboy/memory", [(mc.M + "Write", [m, a, v]), (mc.M + "Read", [m, a])],
+                                  [None, last_r[0]], last_s[0], [m.obj])
     # JOYP: bits 6-7 one, bits 4-5 the written select bits
     st = st0.fork()
     viol = []
